@@ -1,6 +1,7 @@
 package engine
 
 import (
+	"errors"
 	"context"
 	"encoding/json"
 	"fmt"
@@ -31,11 +32,20 @@ type soCfg struct {
 	Objects   int  `json:"objects"`
 	Steps     int  `json:"steps"`
 	Unprotect bool `json:"unprotect"` // close the backing handle before the receiver attaches
+	// FailRefClose lists which closes of reference-marker writers (counted
+	// from the end of the set-up phase) report an upload failure: nothing is
+	// stored and Close returns an error, as a remote.Storage driver may do.
+	FailRefClose []int `json:"fail_ref_close,omitempty"`
 }
 
 func (e *sharedObjEngine) Generate(profile string, seed uint64, tier string) (*Plan, error) {
 	r := simrt.NewRng(seed, 7000)
 	c := soCfg{Providers: 2 + r.IntN(2), Objects: 1 + r.IntN(2), Steps: 3 + r.IntN(6), Unprotect: r.IntN(2) == 0}
+	if r.IntN(3) == 0 {
+		for n := 1 + r.IntN(2); n > 0; n-- {
+			c.FailRefClose = append(c.FailRefClose, r.IntN(4))
+		}
+	}
 	if tier == "thorough" {
 		c.Steps = 3 + r.IntN(12)
 	}
@@ -54,6 +64,11 @@ type yieldStorage struct {
 	inner  remote.Storage
 	before func(op, name string)
 	after  func(op, name string, err error)
+	// fault injection on reference-marker uploads
+	armed        bool
+	refCloses    int
+	failRefClose map[int]bool
+	failed       int
 }
 
 func (s *yieldStorage) Close() error { return nil }
@@ -71,6 +86,17 @@ type yieldWriter struct {
 func (w *yieldWriter) Write(p []byte) (int, error) { return w.w.Write(p) }
 func (w *yieldWriter) Close() error {
 	simrt.YieldNow("remote")
+	if w.s.armed && strings.Contains(w.name, ".ref.") {
+		n := w.s.refCloses
+		w.s.refCloses++
+		if w.s.failRefClose[n] {
+			// the upload failed: nothing was stored
+			w.s.failed++
+			err := errors.New("simremote: injected upload failure on Close of " + w.name)
+			w.s.after("create", w.name, err)
+			return err
+		}
+	}
 	err := w.w.Close()
 	w.s.after("create", w.name, err)
 	return err
@@ -134,7 +160,10 @@ func (e *sharedObjEngine) Execute(t *testing.T, plan *Plan, res *Result) {
 			}
 			return out
 		}
-		st := &yieldStorage{inner: inner}
+		st := &yieldStorage{inner: inner, failRefClose: map[int]bool{}}
+		for _, n := range c.FailRefClose {
+			st.failRefClose[n] = true
+		}
 		st.before = func(op, name string) {
 			if op != "delete" || strings.Contains(name, ".ref.") {
 				return
@@ -200,6 +229,7 @@ func (e *sharedObjEngine) Execute(t *testing.T, plan *Plan, res *Result) {
 			}
 			refs = append(refs, &soRef{prov: p, fileNum: fn, meta: meta, obj: o, holding: true})
 		}
+		st.armed = true
 		// backings in flight between providers
 		type offer struct {
 			obj     int
@@ -295,6 +325,7 @@ func (e *sharedObjEngine) Execute(t *testing.T, plan *Plan, res *Result) {
 		for _, p := range provs {
 			p.Close()
 		}
+		res.Stats["fault.ref_marker_upload"] += int64(st.failed)
 	})
 	res.Stats["fake_ns"] = int64(time.Since(start))
 	finish(res, rr, sim)
